@@ -33,6 +33,9 @@ type c18Node struct {
 type c18Case struct {
 	Pat    []c18Node `json:"pat"`
 	Inputs []string  `json:"inputs"`
+	// every spelling is compiled with the RE2 option as well (it is no member of the inline alphabet, so it
+	// is the same on both sides of every comparison); the pattern may then hold (?P=name) references
+	Re2 bool `json:"re2,omitempty"`
 }
 
 const c18Flags = "imnsx"
@@ -303,6 +306,51 @@ func c18Explicit(ans string, flat []c18Flat) (string, error) {
 	return sb.String(), nil
 }
 
+// c18ExplicitGo prints the same fully explicit spelling from the documented scoping rule alone (an
+// inline (?on-off) holds to the end of the enclosing group, a scoped group (?on-off:…) for its body, an
+// unnamed group captures unless n is in force where it opens) — written here a second time, in Go and
+// without the Lean model, so that a difference of behaviour between the original and the explicit
+// spelling is a finding about the engine whenever the two resolutions agree.
+func c18ExplicitGo(ns []c18Node, o int, sb *strings.Builder) int {
+	for _, n := range ns {
+		switch n.K {
+		case "leaf":
+			sb.WriteString("(?" + c18FullText(o) + ":" + n.Src + ")" + n.Q)
+		case "bar":
+			sb.WriteString("|")
+		case "opt":
+			o = c18ApplySeq(o, n.Opt)
+		case "grp":
+			switch {
+			case n.Cap == 2:
+				sb.WriteString("(?<" + n.Name + ">")
+			case n.Cap == 0 && o&4 == 0:
+				sb.WriteString("(")
+			default:
+				sb.WriteString("(?:")
+			}
+			c18ExplicitGo(n.Kids, o, sb)
+			sb.WriteString(")" + n.Q)
+		case "sc":
+			sb.WriteString("(?:")
+			c18ExplicitGo(n.Kids, c18ApplySeq(o, n.Opt), sb)
+			sb.WriteString(")" + n.Q)
+		}
+	}
+	return o
+}
+
+func c18ApplySeq(o int, seq []int) int {
+	for _, s := range seq {
+		if s > 0 {
+			o |= 1 << (s - 1)
+		} else {
+			o &^= 1 << (-s - 1)
+		}
+	}
+	return o
+}
+
 // generator -------------------------------------------------------------------------------------
 
 var c18Leaves = []string{"a", "b", "A", "B", "k", "c", "[a-c]", "[^b]", "[B]", `[ #a]`, ".", ".", "^", "$", "^", "$", `\n`, `\w`, `\b`, " ", " ", "\t", "#c\n", "# a\n", "\n", `\ `, `\#`, "ab", "Ab "}
@@ -373,7 +421,7 @@ func c18LeafTexts(ns []c18Node, out *[]string) {
 				*out = append(*out, "a")
 			case n.Src == `\n`:
 				*out = append(*out, "\n")
-			case n.Src[0] == '^' || n.Src[0] == '$' || n.Src == `\b`:
+			case n.Src[0] == '^' || n.Src[0] == '$' || n.Src == `\b` || strings.HasPrefix(n.Src, "(?P="):
 			case n.Src[0] == '\\':
 				*out = append(*out, n.Src[1:])
 			default:
@@ -385,9 +433,35 @@ func c18LeafTexts(ns []c18Node, out *[]string) {
 	}
 }
 
+// c18AddPyRefs puts (?P=name) references to groups opened earlier into the item lists (RE2 cases)
+func c18AddPyRefs(rng *rand.Rand, ns []c18Node, seen *[]string) []c18Node {
+	var out []c18Node
+	for _, n := range ns {
+		if n.K == "grp" || n.K == "sc" {
+			if n.K == "grp" && n.Cap == 2 {
+				*seen = append(*seen, n.Name)
+			}
+			n.Kids = c18AddPyRefs(rng, n.Kids, seen)
+		}
+		out = append(out, n)
+		if len(*seen) > 0 && rng.Intn(3) == 0 {
+			out = append(out, c18Node{K: "leaf", Src: "(?P=" + (*seen)[rng.Intn(len(*seen))] + ")"})
+		}
+	}
+	return out
+}
+
 func c18Gen(rng *rand.Rand, i int) c18Case {
 	names := 0
 	cs := c18Case{Pat: c18GenItems(rng, 0, &names)}
+	if i%4 == 3 {
+		cs.Re2 = true
+		if names == 0 {
+			cs.Pat = append([]c18Node{{K: "grp", Cap: 2, Name: "g9", Kids: []c18Node{{K: "leaf", Src: "a"}}}}, cs.Pat...)
+		}
+		var seen []string
+		cs.Pat = c18AddPyRefs(rng, cs.Pat, &seen)
+	}
 	var lt []string
 	c18LeafTexts(cs.Pat, &lt)
 	alpha := []string{"a", "b", "c", "A", "B", "k", "K", "\n", " ", "#", "\t", "ab", "Ab "}
@@ -600,6 +674,11 @@ func c18Check(c *core.Ctx, cases []c18Case) []core.Outcome {
 		}
 		okCount, timeouts := 0, 0
 		skip := map[string]bool{}
+		var re2o regexp2.RegexOptions
+		if cs.Re2 {
+			re2o = regexp2.RE2
+			o.Buckets = append(o.Buckets, "re2")
+		}
 		for os_ := 0; os_ < 32 && o.Fail == nil; os_++ {
 			ro := c18RO(os_)
 			set := c18SetText(os_)
@@ -608,7 +687,7 @@ func c18Check(c *core.Ctx, cases []c18Case) []core.Outcome {
 				sp["prefix"] = "(?" + set + ")" + pat
 				sp["wrap"] = "(?" + set + ":" + pat + ")"
 			}
-			base := c18Parse(pat, ro, false)
+			base := c18Parse(pat, ro|re2o, false)
 			if base.err != "" || base.cerr != "" {
 				o.Buckets = append(o.Buckets, "compile-error")
 			} else {
@@ -619,10 +698,11 @@ func c18Check(c *core.Ctx, cases []c18Case) []core.Outcome {
 				p    c18Parsed
 				ref  c18Parsed
 			}
-			alts := []alt{{"prefix", c18Parse(sp["prefix"], 0, false), base}, {"wrap", c18Parse(sp["wrap"], 0, false), base}}
+			explicitAgree := false
+			alts := []alt{{"prefix", c18Parse(sp["prefix"], re2o, false), base}, {"wrap", c18Parse(sp["wrap"], re2o, false), base}}
 			if hasOpt {
 				sp["rescoped"] = patR
-				alts = append(alts, alt{"rescoped", c18Parse(patR, ro, false), base})
+				alts = append(alts, alt{"rescoped", c18Parse(patR, ro|re2o, false), base})
 			}
 			{
 				expl, err := c18Explicit(res[i*32+os_], flats[i])
@@ -634,14 +714,20 @@ func c18Check(c *core.Ctx, cases []c18Case) []core.Outcome {
 				// wrapped in plain (?:…). Its interior nodes carry no option bits at all, and the auto-atomic /
 				// prefix-factoring rewrites compare whole option words of a leaf and an interior node
 				// (canBeMadeAtomic), so the parse-level views are compared before those rewrites.
-				alts = append(alts, alt{"explicit", c18Parse(expl, 0, true), c18Parse(patW, ro, true)})
+				alts = append(alts, alt{"explicit", c18Parse(expl, re2o, true), c18Parse(patW, ro|re2o, true)})
 				sp["explicit"] = expl
 				sp["explicit-ref"] = patW
+				var gb strings.Builder
+				c18ExplicitGo(cs.Pat, os_, &gb)
+				explicitAgree = gb.String() == expl
+				if !explicitAgree {
+					bad("correspondence-break", "explicit:resolution", fmt.Sprintf("O={%s}: Options.resolve (Lean) and the scoping rule written in Go resolve %q differently", set, pat), gb.String(), expl)
+				}
 			}
 			for _, a := range alts {
 				what := fmt.Sprintf("O={%s} %s spelling %q vs %q", set, a.name, sp[a.name], pat)
 				kind := "impl-violation"
-				if a.name == "explicit" {
+				if a.name == "explicit" && !explicitAgree {
 					kind = "correspondence-break" // the explicit spelling is printed from the Lean model
 					what = fmt.Sprintf("O={%s} explicit spelling %q (from Options.resolve) vs %q", set, sp[a.name], patW)
 				}
